@@ -93,7 +93,17 @@ func entriesAvoiding(c *chk.Ctx, f *ssa.Function, through map[*ssa.Function]bool
 				return
 			}
 		}
+		for t := range through {
+			if t != nil && c.P.InExt(t, g) {
+				return
+			}
+		}
 		sites := c.P.Callers(g)
+		if len(sites) == 0 && g.Parent() != nil {
+			// a closure handed to a synchronous callback taker runs where it is created
+			walk(g.Parent())
+			return
+		}
 		if len(sites) == 0 || ir.Exported(g) || (c.P.UsedAsValue(g) && len(sites) == 0) {
 			out = append(out, ir.Name(g))
 		}
@@ -125,27 +135,39 @@ func ruleUsedTable(c *chk.Ctx, d *dispatchModel) {
 	}
 	c.Check(nStores == 1, "WHO.used", d.setContext, "one reservation site", 0, "exactly one store into the in-flight table", fmt.Sprintf("%d stores into the in-flight table", nStores))
 
-	// D2: reservation only for tasks that passed validation; lookups precede reservations
-	var reserveCall ssa.CallInstruction
-	ir.Calls(d.checkAssign, func(ci ssa.CallInstruction) {
-		if ci.Common().StaticCallee() == d.setContext {
-			reserveCall = ci
+	// D2: reservation only for tasks that passed validation; lookups precede reservations.
+	// The reservation site is the store into the table; it may sit in the check/assign
+	// function itself or in a private helper it calls.
+	var resSite *ssa.MapUpdate
+	ir.Instrs(d.setContext, func(ins ssa.Instruction) {
+		if mu, ok := ins.(*ssa.MapUpdate); ok && chk.LoadsField(mu.Map, used) {
+			resSite = mu
 		}
 	})
-	if reserveCall == nil {
-		c.Fail("PAIR.reserve", d.checkAssign, "reservation call", d.checkAssign.Pos(), "the check/assign function does not call the context-attach function")
+	if resSite == nil || !c.P.InExt(d.checkAssign, d.setContext) {
+		c.Fail("PAIR.reserve", d.checkAssign, "reservation site", d.checkAssign.Pos(), "the reservation is not made by the check/assign function or a private helper of it")
 	} else {
-		taskArg := ir.NormCell(reserveCall.Common().Args[1])
-		guarded := false
-		for _, cd := range ir.CondsAt(reserveCall.Block()) {
-			if x, eq, ok := ir.NilCompare(cd.V); ok {
-				if t, fv, ok := taskFieldLoad(c, x); ok && fv == c.M.TErr && eq == cd.Truth && t == taskArg {
-					guarded = true
+		guarded := c.P.AllContexts(resSite, func(f *ssa.Function) bool { return f == d.checkAssign }, func(cs []ir.Cond) bool {
+			for _, cd := range cs {
+				if known, isNil := isErrNilOfTask(c, cd, nil); known && isNil {
+					return true
 				}
 			}
+			return false
+		})
+		c.Check(guarded, "PAIR.reserve", d.checkAssign, "reserve only valid tasks", resSite.Pos(), "the reservation is reached only on the err == nil edge of the task (duplicates and invalid members never overwrite an entry)",
+			"the reservation is not governed by err == nil of the task: a rejected duplicate would overwrite (and later release) its predecessor's entry")
+		// the anchor of the reservation inside the check/assign function
+		var anchor ssa.Instruction = resSite
+		if resSite.Parent() != d.checkAssign {
+			ir.Calls(d.checkAssign, func(ci ssa.CallInstruction) {
+				for _, g := range calleesOf(c, ci) {
+					if c.P.InExt(g, resSite.Parent()) || g == resSite.Parent() {
+						anchor = ci
+					}
+				}
+			})
 		}
-		c.Check(guarded, "PAIR.reserve", d.checkAssign, "reserve only valid tasks", reserveCall.Pos(), "the reservation is reached only on the err == nil edge of the same task (duplicates and invalid members never overwrite an entry)",
-			"the reservation is not governed by err == nil of the same task: a rejected duplicate would overwrite (and later release) its predecessor's entry")
 		// duplicate detection: a lookup in the table whose hit edge stores an error into the task
 		var lookup *ssa.Lookup
 		ir.Instrs(d.checkAssign, func(ins ssa.Instruction) {
@@ -156,7 +178,6 @@ func ruleUsedTable(c *chk.Ctx, d *dispatchModel) {
 		if lookup == nil {
 			c.Fail("PAIR.reserve", d.checkAssign, "duplicate detection", d.checkAssign.Pos(), "no lookup of the request id in the in-flight table before reserving")
 		} else {
-			// hit edge stores into task.err
 			hitStores := false
 			ir.Instrs(d.checkAssign, func(ins ssa.Instruction) {
 				st, ok := ins.(*ssa.Store)
@@ -176,7 +197,10 @@ func ruleUsedTable(c *chk.Ctx, d *dispatchModel) {
 					}
 				}
 			})
-			back, _ := ir.Reaches(reserveCall, func(i ssa.Instruction) bool { return i == ssa.Instruction(lookup) }, nil)
+			back := false
+			if anchor.Parent() == d.checkAssign {
+				back, _ = ir.Reaches(anchor, func(i ssa.Instruction) bool { return i == ssa.Instruction(lookup) }, nil)
+			}
 			c.Check(hitStores && !back, "PAIR.reserve", d.checkAssign, "duplicate detection precedes reservation", lookup.Pos(), "a hit in the in-flight table fails the task, and every lookup of a batch happens before its first reservation (two phases)",
 				fmt.Sprintf("duplicate detection is incomplete (hit stores error=%v, a reservation can precede a later lookup=%v)", hitStores, back))
 		}
@@ -231,53 +255,72 @@ func ruleReserveRelease(c *chk.Ctx, d *dispatchModel) {
 		c.Undecided("PAIR.release", d.responses, "not-executed mark", d.responses.Pos(), "cannot extract the predicate under which a response is marked not executed")
 		return
 	}
-	// 2. delivery releases exactly the unmarked ones: the release call is governed by rsp.err == nil
-	var rel ssa.CallInstruction
-	ir.Calls(d.deliver, func(ci ssa.CallInstruction) {
-		for _, g := range calleesOf(c, ci) {
-			has := false
-			ir.Instrs(g, func(i2 ssa.Instruction) {
-				if _, ok := isDeleteOn(i2, c.M.SUsed); ok {
-					has = true
-				}
-			})
-			if has {
-				rel = ci
+	// 2. delivery releases exactly the unmarked ones: the call that removes the id (directly, or
+	// the innermost call of a function that does), reached from the delivery function possibly
+	// through private helpers, is governed by rsp.err == nil
+	var deletes func(g *ssa.Function, depth int) bool
+	deletes = func(g *ssa.Function, depth int) bool {
+		if g == nil || depth > 3 || !c.P.InRepo[g] {
+			return false
+		}
+		found := false
+		ir.Instrs(g, func(i2 ssa.Instruction) {
+			if _, ok := isDeleteOn(i2, c.M.SUsed); ok {
+				found = true
 			}
-		}
-	})
-	ir.Instrs(d.deliver, func(ins ssa.Instruction) {
-		if call, ok := isDeleteOn(ins, c.M.SUsed); ok {
-			rel = call
-		}
-	})
+		})
+		return found
+	}
+	var rel ssa.Instruction
+	for _, g := range c.P.Ext(d.deliver) {
+		ir.Instrs(g, func(ins ssa.Instruction) {
+			if call, ok := isDeleteOn(ins, c.M.SUsed); ok {
+				rel = call
+			}
+			if ci, ok := ins.(ssa.CallInstruction); ok {
+				for _, h := range calleesOf(c, ci) {
+					if deletes(h, 0) && !c.P.InExt(d.deliver, h) {
+						rel = ci
+					}
+				}
+			}
+		})
+	}
 	if rel == nil {
 		c.Fail("PAIR.release", d.deliver, "release with the reply", d.deliver.Pos(), "the delivery function does not release the ids of the responses it sends")
 		return
 	}
-	var kinds []string
-	for _, cd := range ir.CondsAt(rel.Block()) {
-		if isLoopCond(cd) || isLenCond(cd) {
-			continue
-		}
-		if x, eq, ok := ir.NilCompare(cd.V); ok && chk.LoadsField(x, c.M.JErr) {
-			if eq == cd.Truth {
-				kinds = append(kinds, "mark==nil")
-			} else {
-				kinds = append(kinds, "mark!=nil")
+	okGov := c.P.AllContexts(rel, func(f *ssa.Function) bool { return f == d.deliver }, func(cs []ir.Cond) bool {
+		var kinds []string
+		for _, cd := range cs {
+			if isLoopCond(cd) || isLenCond(cd) {
+				continue
 			}
-			continue
+			if x, eq, ok := ir.NilCompare(cd.V); ok && chk.LoadsField(x, c.M.JErr) {
+				if eq == cd.Truth {
+					kinds = append(kinds, "mark==nil")
+				} else {
+					kinds = append(kinds, "mark!=nil")
+				}
+				continue
+			}
+			if x, _, ok := ir.NilCompare(cd.V); ok {
+				if _, isParam := ir.NormCell(x).(*ssa.Parameter); isParam {
+					continue // nil check of the sender (after the release)
+				}
+			}
+			kinds = append(kinds, "other")
 		}
-		kinds = append(kinds, "other")
-	}
-	c.Check(len(kinds) == 1 && kinds[0] == "mark==nil", "PAIR.release", d.deliver, "release governed by the executed mark", rel.Pos(), "the release runs exactly for responses not marked as never executed (a rejected duplicate cannot cancel its predecessor)",
-		"the delivery-time release is governed by ["+strings.Join(kinds, "∧")+"], not exactly by the executed mark")
+		return len(kinds) == 1 && kinds[0] == "mark==nil"
+	})
+	c.Check(okGov, "PAIR.release", rel.Parent(), "release governed by the executed mark", rel.Pos(), "the release runs exactly for responses not marked as never executed (a rejected duplicate cannot cancel its predecessor)",
+		"the delivery-time release is not governed exactly by the executed mark")
 	// the release loop visits every response: no early exit
 	if hdr := loopHeaderOf(rel.Block()); hdr != nil {
 		early := loopEarlyExits(hdr)
-		c.Check(len(early) == 0, "PAIR.release", d.deliver, "release loop visits every response", rel.Pos(), "the loop that releases ids has no early exit", fmt.Sprintf("the loop that releases ids can be left early (%d exit edge(s) other than its end): later members of the batch would stay reserved forever", len(early)))
+		c.Check(len(early) == 0, "PAIR.release", rel.Parent(), "release loop visits every response", rel.Pos(), "the loop that releases ids has no early exit", fmt.Sprintf("the loop that releases ids can be left early (%d exit edge(s) other than its end): later members of the batch would stay reserved forever", len(early)))
 	} else {
-		c.Undecided("PAIR.release", d.deliver, "release loop visits every response", rel.Pos(), "release is not inside a loop over the responses")
+		c.Undecided("PAIR.release", rel.Parent(), "release loop visits every response", rel.Pos(), "release is not inside a loop over the responses")
 	}
 	// release precedes/accompanies the send in one critical section
 	// 3. obligation: reservation made ⇒ X non-nil
